@@ -12,9 +12,11 @@ type obj =
 let slots : (int, obj) Hashtbl.t = Hashtbl.create 16
 let get_inc s = match Hashtbl.find slots s with Inc (v, st) -> (v, st)
 
-let process (toks : string list) : string =
+let rec process (toks : string list) : string =
   match toks with
   | ["PERM"; r; st] -> hex_of_bytes (x_perm (nat_of_int (int_of_string r)) (bytes_of_hex st))
+  (* AEM ... RK / RK2: the implementation re-randomizes the masked key before use; the key it represents is unchanged (Model/Maskm.v) *)
+  | ["AEM"; v; op; k; n; ad; x; ("RK" | "RK2")] -> process ["AEM"; v; op; k; n; ad; x]
   | ["AE"; v; "ENC"; k; n; ad; pt] | ["AEM"; v; "ENC"; k; n; ad; pt] | "AEC" :: v :: "ENC" :: k :: n :: ad :: pt :: _ ->
     let (c, clen) = x_aead_encrypt (variant v) (bytes_of_hex k) (bytes_of_hex n) (bytes_of_hex ad) (bytes_of_hex pt) in
     Printf.sprintf "%s %d" (hex_of_bytes c) (int_of_nat clen)
@@ -38,7 +40,8 @@ let process (toks : string list) : string =
   | ["AI"; s; "REINIT"; n; k] ->
     let s = int_of_string s in let (v, st) = get_inc s in
     let n' = if n = "SELF" then Some st.i_nonce else opt_bytes n in
-    Hashtbl.replace slots s (Inc (v, x_inc_reinit v st n' (opt_bytes k))); "OK"
+    let k' = if k = "SELF" then Some st.i_key else opt_bytes k in
+    Hashtbl.replace slots s (Inc (v, x_inc_reinit v st n' k')); "OK"
   | ["AI"; s; "START"; ad] ->
     let s = int_of_string s in let (v, st) = get_inc s in
     Hashtbl.replace slots s (Inc (v, x_inc_start v st (bytes_of_hex ad))); "OK"
